@@ -52,6 +52,11 @@ def run(chk):
     if chk.want("R04.11"):
         from ..inherit import inherit
         inherit(chk, "R04.11", "c01", ["R01.2", "R01.3", "R01.4"])
+    chk.rule("R04.14", "the molecules handed out are the ones that were assembled: the cached unit-cell / unique molecules are not modified in place after "
+                       "they were stored (a shallow copy that shares its position array moves the crystal's own molecules with it) (= C14 R14.3)", 10)
+    if chk.want("R04.14"):
+        from ..inherit import inherit
+        inherit(chk, "R04.14", "c14", ["R14.3"])
     chk.assume("the greedy choice of symmetry-unique molecules, Z' * |G| and all geometry (bonding distances) are not decided")
     chk.assume("scipy connected_components labels partition the nodes; breadth_first_order returns each node's predecessor")
 
@@ -428,6 +433,23 @@ def coverage_by_construction(chk, cr, ev, q):
         if outer:
             why.append(f"scan only runs under {[str(c)[:50] for c in outer]}")
         ok_steps = ok_steps and bool(marks) and test_new and over_all and not outer
+    # the scan may stop early only when every parent site is marked: any other stopping rule (a running count of atoms, a number of
+    # molecules) can be met before the last independent molecule has been seen
+    for e in apps[:1]:
+        if not e.loops:
+            continue
+        lp = e.loops[-1]
+        marks_ = [x for x in ev.events if x.kind == "store" and x.loops and x.loops[-1].k == lp.k and x.value.key() == "True" and "asymmetric_unit_atoms" in x.target.key()]
+        mask_key = marks_[0].target.as_atom()[1].key() if marks_ else None
+        early = [x for x in ev.events if x.kind in ("break", "return") and x.loops and x.loops[-1].k == lp.k]
+        bad = []
+        for x in early:
+            okb = mask_key is not None and any(p and call_name(c.as_atom() or ()) in ("numpy.all", "all") and c.as_atom()[2] and c.as_atom()[2][0].key() == mask_key
+                                               for c, p in x.guards)
+            if not okb:
+                bad.append("line %s: stops under %s" % (x.lineno, [("" if p else "not ") + str(c)[:60] for c, p in x.guards if (c.key(), p) not in {(c2.key(), p2) for c2, p2 in e.guards}][-2:]))
+        chk.ob("R04.7", CR, q, "the scan over the unit-cell molecules stops early only when every asymmetric-unit site is marked as covered", not bad,
+               fingerprint="scan-stop", expected="if np.all(covered): break", found=bad[:2])
     chk.ob("R04.7", CR, q, "coverage by construction: the result starts empty; molecules are added only in an unconditional scan over all unit-cell "
            "molecules, each together with marking its parent sites and only if those were not all marked", empty and ok_steps, node=(setm or stm)[0].node,
            fingerprint="coverage", expected="molecules = []; for mol in sorted(uc_molecules): if all marked: continue; mark; append",
